@@ -7,7 +7,7 @@ PROP = Property(
     coq_targets=["Extract/Extract_Legacy.vo"],
     engines=[Engine(name="legacy", c_srcs=["harness/legacy_drv.c"],
                     ml_srcs=["ocaml/gen/LegacyModel.ml", "ocaml/legacy_drv.ml"],
-                    gen=legacygen.gen, n_quick=4000, n_thorough=60000)],
+                    gen=legacygen.gen, n_quick=10000, n_thorough=60000)],
     trusted_base=["Coq 8.16.1 kernel + coqc",
                   "extraction (ExtrOcamlBasic only, no Extract Constant) + OCaml 4.13.1",
                   "gen/regen.py constants (status codes, record types, AF_*, INT_MAX) compiled against the working tree",
